@@ -72,8 +72,7 @@ let nats_of (s : string) : E.nat list =
   if s = "" then [] else List.map (fun x -> nat_of_int (int_of_string x)) (String.split_on_char ',' s)
 
 (* built-in calls inside C01 expressions: their meaning is C11's subject *)
-let call_spec (rv : E.value) (fn : E.bytes) (args : E.value list) : E.sres =
-  match E.call_builtin fn rv args with Some (E.BOk v) -> E.SVal v | _ -> E.SErr
+let call_spec (rv : E.value) (fn : E.bytes) (args : E.value list) : E.sres = E.builtin_spec rv fn args
 
 (* the data map as the specification sees it: name -> value *)
 let spec_env (data : string) : (E.bytes * E.value) list option =
